@@ -41,6 +41,17 @@ def reference(text: str, expect: dict) -> dict:
 
 
 def eval_cli(case: dict) -> dict:
+    res = _eval_cli(case)
+    if res.get("violations"):
+        from . import kf
+
+        ctx = checks.Ctx({"program": case["program"]})
+        for v in res["violations"]:
+            v["kf"] = kf.classify(ctx, case, v)
+    return res
+
+
+def _eval_cli(case: dict) -> dict:
     prop = case["prop"]
     expect = case["expect"]
     if case.get("need_safe"):
